@@ -4,7 +4,7 @@
    one the harness took from the implementation by a probe rendering, or, for
    pretty-printer values, [pp_obj fj v] computed by the layout model (Layout.v). *)
 From Coq Require Import ZArith List.
-From AK Require Export Common.Sx Common.Err C10.Sgr C10.Base gen.C10_Consts C10.Model C10.Layout.
+From AK Require Export Common.Sx Common.Err C10.Sgr C10.Base gen.C10_Consts C10.Model C10.Layout C10.Titles.
 Import ListNotations.
 
 (* texts are compared by (length, polynomial hash modulo 2^61): a history prints
